@@ -187,6 +187,8 @@ def run(chk):
     for m in ('Poller', 'PollerObs', 'Trace_PollerObs'):
         sany(m)
     chk.add_tlc(model_check('Poller', 'MC_Poller_quick.cfg' if quick else 'MC_Poller_thorough.cfg', timeout=1500))
+    if not quick:
+        chk.add_tlc(model_check('Poller', 'MC_Poller_thorough3.cfg', timeout=1500))    # three modules, smaller alphabets
     rnd = random.Random(chk.seed * 1000003 + 17)
     scs = list(CATALOGUE) + [random_scenario(rnd) for _ in range(150 if quick else 3000)]
     traces = pool_map(_run, scs)
